@@ -297,7 +297,7 @@ func TestC13Keys(t *testing.T) {
 				if c.T == "e2e" {
 					kds[w].ttl.Store(longTTL)
 					tc := &tcase{T: "e2e", Mode: "server", Ul: "srv", L4: "udp", Dp: "srv", Dh: "S", Sfam: 4, Dfam: 4,
-						Path: emptyPath, Pl: "ntp", Ak: "valid", Cauth: true, Rm: c.Rm}
+						Path: emptyPath, Pl: "ntp", Ak: "valid", Ext: "e2e", Rext: "e2e", Cauth: true, Rm: c.Rm}
 					r := hs[w].runE2EOne(i, tc, -1, -1, rng).r
 					rs = []*rec{r}
 					ne2e.Add(1)
